@@ -223,7 +223,10 @@ def run_pair_case(ctx, case, rng):
         if not p.start() or not p.auth():
             ctx.inconclusive("handshake failed in a C19 pair case")
             return
+        cm.diverge_ids(p, rng)
         c, s = p.session(window_size=case["wc"], max_packet_size=case["pc"])
+        if c is not None and c.chanid != c.remote_chanid:
+            ctx.count("channels_with_local_id_ne_remote_id")
         if s is None:
             ctx.inconclusive("server never saw the channel")
             return
